@@ -13,7 +13,6 @@ import (
 	"golang.org/x/tools/go/callgraph/vta"
 	"golang.org/x/tools/go/ssa"
 	"golang.org/x/tools/go/ssa/ssautil"
-	"golang.org/x/tools/go/types/typeutil"
 
 	"verif/sa/internal/core"
 	"verif/sa/internal/eff"
@@ -408,7 +407,7 @@ func checkC13(p *core.Program, r *core.Report) {
 			if !ok || call == runCall {
 				return true
 			}
-			fn, _ := typeutil.Callee(info, call).(*types.Func)
+			fn, _ := flow.Callee(info, call).(*types.Func)
 			if fn == nil || !inRepoObj(fn) {
 				return true
 			}
